@@ -107,7 +107,36 @@ def g2(graph):
 
 
 SCHEDULES = ("run_incremental/list", "run_incremental/lazy", "run_all", "run_all/defer", "run_all/threads",
-             "generate_incremental+run", "run_incremental(list of components)", "run_all/sync-pool", "run_all/falsy-pool")
+             "generate_incremental+run", "run_incremental(list of components)", "run_all/sync-pool", "run_all/falsy-pool",
+             "run_all/gate-pool-1", "run_all/gate-pool-n")
+
+
+class GatePool(object):
+    """a REAL thread pool whose workers are busy until every task has been submitted: no task starts before the first
+    result() is asked for, i.e. after the submitting loop has exhausted its generator (max_workers=1: fewer workers than tasks)"""
+
+    def __init__(self, max_workers):
+        import threading
+        self.gate = threading.Event()
+        self.tp = ThreadPoolExecutor(max_workers=max_workers)
+
+    class _Fut(object):
+        def __init__(self, pool, fut):
+            self.pool, self.fut = pool, fut
+
+        def result(self):
+            self.pool.gate.set()
+            return self.fut.result()
+
+    def submit(self, fn, *a, **k):
+        def task():
+            self.gate.wait(10)
+            return fn(*a, **k)
+        return GatePool._Fut(self, self.tp.submit(task))
+
+    def close(self):
+        self.gate.set()
+        self.tp.shutdown(wait=True)
 
 
 class SyncPool(object):
@@ -149,6 +178,12 @@ def call_schedule(name, world, graph, broker, rng, targets=None, at_yield=None):
         return dr.run_all(g2(graph), broker, SyncPool())
     if name == "run_all/falsy-pool":
         return dr.run_all(g2(graph), broker=broker, pool=FalsyPool())
+    if name in ("run_all/gate-pool-1", "run_all/gate-pool-n"):
+        gp = GatePool(1 if name.endswith("-1") else 4)
+        try:
+            return dr.run_all(g2(graph), broker, gp)
+        finally:
+            gp.close()
     if name == "run_all/threads":
         with ThreadPoolExecutor(max_workers=rng.randint(1, 4)) as tp:
             return dr.run_all(components=g2(graph), broker=broker, pool=tp)
@@ -172,6 +207,8 @@ def fresh_check(world, graph, rng, schedules, targets=None, store_skips=False, s
     failures = [(schedule, text)] and rows = [(schedule, passed?, canonical answer for the model tie)].
     """
     fails, rows = [], []
+    for why in yielded_graphs_check(world, graph):          # cheap, and it names the concrete input: first
+        fails.append(("yielded-graphs", why))
     comps = components_of(graph)
     comp_of = dict((k, c) for c in comps for k in c)
     subs = [frozenset(sg) for sg in dr.get_subgraphs(g2(graph))]      # order of the sub-graphs (priority order)
@@ -186,7 +223,10 @@ def fresh_check(world, graph, rng, schedules, targets=None, store_skips=False, s
     ref = canon_plain(world, ref_b)
     ref_calls = sorted(world.calls)
     known_before = [ref_b]
+    not_values = bool(fails)
     for name in schedules:
+        if name not in SERIAL and (too_costly(name) or (not_values and ABORTS[0] >= 1)):
+            continue
         world.calls = []
         world.exc_cache.clear()
         snaps = []
@@ -194,10 +234,9 @@ def fresh_check(world, graph, rng, schedules, targets=None, store_skips=False, s
         def at_yield(i, b, so_far):
             if shape_problem(b) is None:
                 snaps.append([canon_plain(world, x) if shape_problem(x) is None else "?" for x in so_far])
-        try:
-            bs = call_schedule(name, world, graph, None, rng, targets, at_yield)
-        except Exception as ex:
-            fails.append((name, "%s without a broker raised %r" % (name, ex)))
+        bs, err = guarded_call(world, graph, None, lambda: call_schedule(name, world, graph, None, rng, targets, at_yield))
+        if err is not None:
+            fails.append((name, "%s without a broker %s" % (name, err if isinstance(err, str) else "raised %r" % (err,))))
             continue
         if not isinstance(bs, list):
             fails.append((name, "%s handed back %r, not a list of brokers" % (name, type(bs).__name__)))
@@ -253,16 +292,25 @@ def fresh_check(world, graph, rng, schedules, targets=None, store_skips=False, s
         rows.append((name, False, answer(world, bs, None, subs)))
         known_before.extend(distinct)
     # the caller's broker: every sub-graph is evaluated on it and it is the object handed back every time
-    for name in schedules:
+    pref, pref_calls = None, None
+    for name in ["run"] + list(schedules):
         world.exc_cache.clear()
+        world.calls = []
         pb = dr.Broker()
         pb.store_skips = store_skips
         for cid, v in seeds:
             pb[world.comps[cid]] = W.uncanon_val(v)
-        try:
-            bs = call_schedule(name, world, graph, pb, rng, targets)
-        except Exception as ex:
-            fails.append((name, "%s with a broker raised %r" % (name, ex)))
+        if name not in SERIAL and (too_costly(name) or (not_values and ABORTS[0] >= 1)):
+            continue
+        if name == "run":
+            # reference for the caller's-broker schedules: one pass on an equal broker
+            bs, err = guarded_call(world, graph, pb, lambda: [dr.run(g2(graph), broker=pb)])
+            if err is None:
+                pref, pref_calls = canon_plain(world, pb), sorted(world.calls)
+            continue
+        bs, err = guarded_call(world, graph, pb, lambda: call_schedule(name, world, graph, pb, rng, targets))
+        if err is not None:
+            fails.append((name, "%s with a broker %s" % (name, err if isinstance(err, str) else "raised %r" % (err,))))
             continue
         if not isinstance(bs, list) or any(shape_problem(b) for b in bs):
             fails.append((name, "%s with a broker handed back %r" % (name, bs if not isinstance(bs, list) else [type(b).__name__ for b in bs])))
@@ -271,6 +319,10 @@ def fresh_check(world, graph, rng, schedules, targets=None, store_skips=False, s
             fails.append((name, "%s with a broker handed back %d object(s) that are not the caller's broker" % (name, sum(1 for b in bs if b is not pb))))
         if len(bs) != len(comps):
             fails.append((name, "%s with a broker handed back %d brokers for %d connected sub-graphs" % (name, len(bs), len(comps))))
+        if pref is not None and canon_plain(world, pb) != pref:
+            fails.append((name, "%s with a broker differs from the single pass:\n  dr.run: %s\n  %s: %s" % (name, pref, name, canon_plain(world, pb))))
+        if pref_calls is not None and sorted(world.calls) != pref_calls:
+            fails.append((name, "%s with a broker called the component bodies %s, the single pass %s" % (name, sorted(world.calls), pref_calls)))
         rows.append((name, True, answer(world, bs, pb, subs)))
     return fails, rows
 
@@ -383,12 +435,13 @@ def entry_eval(world, seeds, store_skips, graph, entry, rng, failing=None):
             # `failing`: a module-level observer that raises, taken over by every broker the engine creates
             with global_observer(attributing_observer(world), dr.ComponentType, decorator=(entry == "run_all()")), \
                     (global_observer(failing, dr.ComponentType) if failing is not None else _nothing()):
-                if entry == "run_incremental()":
-                    bs = list(dr.run_incremental(g2(graph)))
-                elif entry == "run_all()":
-                    bs = dr.run_all(g2(graph))
-                else:
-                    bs = dr.run_all(g2(graph), pool=W.DeferPool(rng))
+                with guard(world, graph, None):
+                    if entry == "run_incremental()":
+                        bs = list(dr.run_incremental(g2(graph)))
+                    elif entry == "run_all()":
+                        bs = dr.run_all(g2(graph))
+                    else:
+                        bs = dr.run_all(g2(graph), pool=W.DeferPool(rng))
             bad = [shape_problem(b) for b in (bs if isinstance(bs, list) else [bs]) if shape_problem(b)]
             if bad or not isinstance(bs, list):
                 raise AssertionError("%s: %s" % (entry, bad[0] if bad else "handed back %r" % type(bs).__name__))
@@ -419,7 +472,7 @@ def entry_eval(world, seeds, store_skips, graph, entry, rng, failing=None):
                                   % (len(sb.instances), len(seeds), sum(1 for v in sb.exceptions.values() if v), len(sb.missing_requirements)))
             r.broker = pb
             r.brokers = [pb]
-    except Exception as ex:
+    except (Exception, Abort) as ex:
         r.error = ex
         r.broker = None
     r.edges_changed = world.edges_changed(edges) or world.edges_inconsistent()
@@ -467,3 +520,213 @@ class debug_logging(object):
             lg.propagate = prop
         logging.disable(self.prev_disable)
         return False
+
+
+# ----------------------------------------------------------------------------------------------- damage bound
+
+class Abort(BaseException):
+    """raised by the guard inside the engine: not an Exception, so no handler of the engine swallows it"""
+
+
+class guard(object):
+    """
+    Process-wide watch for the time of ONE schedule: every attempt (DELEGATES[c].process) of a component of the world is
+    counted, every observer firing is looked at.  The schedule is ABORTED (Abort out of the engine) as soon as a component
+    outside the world is fired, a component outside the graph is attempted, or a component is attempted a second time — so a
+    change that makes some run() evaluate the whole default group costs one foreign component, not thousands.
+    `why` holds what was seen.
+    """
+
+    def __init__(self, world, graph, broker=None, max_attempts=1):
+        import threading
+        self.world, self.graph, self.broker, self.max = world, graph, broker, max_attempts
+        self.lock = threading.Lock()
+        self.count, self.why, self.saved = {}, None, []
+
+    def _obs(self, comp, broker):
+        if comp not in self.world.ids:
+            if self.why is None:
+                self.why = "a component outside the world was taken into the evaluation: %s" % dr.get_name(comp)
+            raise Abort(self.why)
+
+    def __enter__(self):
+        dr.add_observer(self._obs, dr.ComponentType)
+        if self.broker is not None:
+            self.broker.add_observer(self._obs, dr.ComponentType)
+        for cid, c in enumerate(self.world.comps):
+            d = dr.get_delegate(c)
+            if d is None:
+                continue
+            had = "process" in d.__dict__
+            orig = d.process
+
+            def wrapped(broker, _orig=orig, _cid=cid, _c=c):
+                with self.lock:
+                    n = self.count[_cid] = self.count.get(_cid, 0) + 1
+                    if _c not in self.graph and self.why is None:
+                        self.why = "component %d, which is not a key of the graph, was attempted" % _cid
+                    elif n > self.max and self.why is None:
+                        self.why = "component %d was attempted %d times in one call" % (_cid, n)
+                    bad = self.why
+                if bad is not None:
+                    raise Abort(bad)
+                return _orig(broker)
+            self.saved.append((d, had, orig))
+            d.process = wrapped
+        return self
+
+    def __exit__(self, *a):
+        for d, had, orig in self.saved:
+            if had:
+                d.process = orig
+            else:
+                try:
+                    del d.process
+                except AttributeError:
+                    pass
+        reg = getattr(dr, "TYPE_OBSERVERS", None)
+        if isinstance(reg, dict) and dr.ComponentType in reg:
+            try:
+                reg[dr.ComponentType].discard(self._obs)
+            except Exception:
+                pass
+        if self.broker is not None:
+            try:
+                self.broker.observers[dr.ComponentType].discard(self._obs)
+            except Exception:
+                pass
+        return False
+
+
+ABORTS = [0]          # schedules stopped by the guard in this process
+ABORT_CAP = 3         # after that many, schedules in which tasks start after the generator moved on are no longer run:
+                      # the concrete inputs are on record, every further one would cost a sort of the whole default group
+SERIAL = ("run", "run_incremental/list", "run_incremental/lazy", "run_all", "run_incremental(list of components)")
+
+
+def too_costly(name):
+    return ABORTS[0] >= ABORT_CAP and name not in SERIAL
+
+
+def guarded_call(world, graph, broker, fn):
+    """run fn() under the guard; returns (result, None) or (None, why-it-was-stopped / exception)"""
+    gd = guard(world, graph, broker)
+    try:
+        with gd:
+            return fn(), None
+    except Abort as ab:
+        ABORTS[0] += 1
+        return None, "stopped: %s" % (gd.why or ab)
+    except Exception as ex:
+        return None, ex
+
+
+# ----------------------------------------------------------------------------------------------- yielded graphs are values
+
+def _snap(world, g):
+    if not isinstance(g, dict):
+        return "?%s" % type(g).__name__
+    return sorted((world.ids.get(k, dr.get_name(k)), sorted(str(world.ids.get(d, "x")) for d in v)) for k, v in g.items())
+
+
+def yielded_graphs_check(world, graph, broker_factory=None):
+    """
+    The dicts get_subgraphs / generate_incremental hand out are VALUES: a consumer that keeps every yielded graph and looks at
+    them after the generator has advanced or is exhausted (run_all's pool branch: tasks queued while the submitting loop goes
+    on) finds each as it was when yielded; they are pairwise distinct objects, none is empty, together they are the graph.
+    Returns a list of failure texts.
+    """
+    out = []
+    for name, make in (("get_subgraphs", lambda: dr.get_subgraphs(g2(graph))),
+                       ("generate_incremental (no broker)", lambda: dr.generate_incremental(g2(graph))),
+                       ("generate_incremental (caller's broker)", lambda: dr.generate_incremental(g2(graph), dr.Broker()))):
+        kept, at_yield = [], []
+        try:
+            for item in make():
+                g = item[0] if (name != "get_subgraphs" and isinstance(item, tuple) and len(item) == 2) else item
+                kept.append(g)
+                at_yield.append(_snap(world, g))
+        except Exception as ex:
+            out.append("%s raised %r" % (name, ex))
+            continue
+        later = [_snap(world, g) for g in kept]
+        for i, (a, b) in enumerate(zip(at_yield, later)):
+            if a != b:
+                out.append("%s: the graph yielded as #%d was %s; after the generator was exhausted the SAME dict holds %s (a task queued "
+                           "with it evaluates something else)" % (name, i + 1, a, b))
+                break
+        if any(isinstance(g, dict) and not g for g in kept):
+            out.append("%s yielded an empty graph (run() takes an empty graph for the whole default group)" % name)
+        for i in range(len(kept)):
+            if any(kept[i] is kept[j] for j in range(i)):
+                out.append("%s yielded the same dict object more than once (#%d)" % (name, i + 1))
+                break
+        keys = sorted(str(k[0]) for s_ in at_yield if isinstance(s_, list) for k in s_)
+        want = sorted(str(world.ids[k]) for k in graph)
+        if keys != want:
+            out.append("%s: the yielded graphs hold the keys %s, the graph %s" % (name, keys, want))
+    return out
+
+
+# ----------------------------------------------------------------------------------------------- loaded archive, every entry point
+
+ARCHIVE_SCHEDULES = ("run", "run_incremental/list", "run_incremental/lazy", "run_all", "generate_incremental+run", "run_all/defer",
+                     "run_all/sync-pool", "run_all/gate-pool-1", "run_all/gate-pool-n", "run_all/threads")
+
+
+def archive_pre(world, graph, seeds, rng):
+    """seeds + 1..2 components that have dependencies inside the graph, as an archive holds them; None for the one shape
+    DESIGN §6 leaves out (a pre-populated component that directly depends on another pre-populated key of the graph)"""
+    with_deps = [world.ids[c] for c in graph if any(d in graph for d in graph[c])]
+    pre = [tuple(x) for x in seeds]
+    for cid in rng.sample(with_deps, min(len(with_deps), rng.randint(1, 2))):
+        if cid not in [x for x, _ in pre]:
+            pre.append((cid, "A%d" % (7000 + cid)))
+    sset = set(world.comps[x] for x, _ in pre)
+    if any(d in sset and d in graph for c in graph if c in sset for d in graph[c]):
+        return None
+    return pre
+
+
+def archive_check(world, graph, pre, store_skips, rng, schedules=ARCHIVE_SCHEDULES):
+    """
+    A broker holding a SerializedArchiveContext and the pre-populated components of `pre`, through every entry point: same
+    values / failures / missing reports and the same body invocations as dr.run (a pruned dependency's body is never invoked).
+    Returns (failures [(schedule, text)], rows [(schedule, canonical result)]).
+    """
+    from insights.core.context import SerializedArchiveContext
+    fails, rows = [], []
+    ref, ref_calls = None, None
+    for name in schedules:
+        if too_costly(name):
+            continue
+        hb = world.new_broker(pre, store_skips)
+        hb[SerializedArchiveContext] = SerializedArchiveContext()
+        world.calls = []
+        world.exc_cache.clear()
+        if name == "run":
+            out, err = guarded_call(world, graph, hb, lambda: [dr.run(g2(graph), broker=hb)])
+        else:
+            out, err = guarded_call(world, graph, hb, lambda: call_schedule(name, world, graph, hb, rng))
+        if err is not None:
+            fails.append((name, "loaded archive (pre-populated %s): %s %s" % ([x for x, _ in pre], name,
+                                                                             err if isinstance(err, str) else "raised %r" % (err,))))
+            if name == "run":
+                return fails, rows
+            continue
+        if not isinstance(out, list) or any(o is not hb for o in out):
+            fails.append((name, "loaded archive: %s did not hand the caller's broker back" % name))
+            continue
+        text, calls = canon_plain(world, hb, foreign=False), sorted(world.calls)
+        rows.append((name, text))
+        if name == "run":
+            ref, ref_calls = text, calls
+            continue
+        if text != ref:
+            fails.append((name, "loaded archive (pre-populated %s): %s differs from dr.run:\n  dr.run: %s\n  %s: %s"
+                          % ([x for x, _ in pre], name, ref, name, text)))
+        if calls != ref_calls:
+            extra = [c for c in calls if c not in ref_calls]
+            fails.append((name, "loaded archive (pre-populated %s): %s invoked the component bodies %s, dr.run %s (not invoked by dr.run: %s)"
+                          % ([x for x, _ in pre], name, calls, ref_calls, extra)))
+    return fails, rows
